@@ -421,6 +421,11 @@ where
             (true, Some(snapshot_path)) => {
                 vfs::remove_file(snapshot_path).await?;
             }
+            // No snapshot is taken of an empty event log
+            // so rollback to the empty event log
+            (false, None) => {
+                rollback_completed = self.clear().await.is_ok();
+            }
             _ => {}
         }
 
